@@ -70,6 +70,10 @@ def mem_excel(sheets):
     return Excel({'data': data, 'titles': titles, 'suspicious_cells': {}, 'sheets_size': sizes})
 
 
+class AsText(str):
+    """marker for write_xlsx: store this string as a TEXT cell even if it starts with '=' (Excel: typed with a leading apostrophe)"""
+
+
 def write_xlsx(path, sheets, write_only=False):
     import openpyxl
     wb = openpyxl.Workbook()
@@ -77,7 +81,9 @@ def write_xlsx(path, sheets, write_only=False):
     for title, cells in sheets:
         ws = wb.create_sheet(title)
         for (c, r), v in sorted(cells.items(), key=lambda kv: (kv[0][1], kv[0][0])):
-            ws.cell(row=r + 1, column=c + 1, value=v)
+            oc = ws.cell(row=r + 1, column=c + 1, value=str(v) if isinstance(v, AsText) else v)
+            if isinstance(v, AsText):
+                oc.data_type = 's'
     wb.save(path)
     return path
 
